@@ -394,6 +394,12 @@ def run(model, tier="quick"):
     # constructors establish the relations between fields that the references above take for granted
     from .ctor_refs import constructors
     res.units["constructor_references"] = constructors(res, model, ('pool',))
+    # premise: a price given as a tick becomes a sqrt price through TickMath itself (the boundary tick of a range must give
+    # exactly the boundary sqrt price, otherwise a position ON its bound is treated as inside)
+    from . import C06 as _C06
+    for q_, src_, what_ in _C06.REFS:
+        if q_.endswith("tick_to_sqrt_price_x96"):
+            formula_check(res, model, q_, src_, what_, opaque=["get_sqrt_ratio_at_tick"])
     from ..rules.fresh import fresh_rule
     if "R-FRESH" not in res.rules:
         res.rules.append("R-FRESH")
